@@ -40,7 +40,7 @@ PAIRS = [("col_a", "col_b"), ("pal12_a", "pal12_b"), ("col_a", "multi_a"), ("fig
          ("raising", "col_a"), ("bcol_a", "bcol_b"), ("paged_s8", "paged_s14"), ("blk_a", "col_b"),
          ("badcolor", "col_a"), ("multi_raising", "multi_b"), ("graded_s9", "graded_s92"),
          ("multi3_p", "multi3_l"), ("title_vec", "col_b"),
-         ("const_a", "const_b"), ("shr_a", "shr_b"), ("shr_c", "shr_b")]
+         ("const_a", "const_b"), ("shr_a", "shr_b"), ("shr_c", "shr_b"), ("grp_a", "grp_b"), ("grp_c", "grp_a")]
 # double preemptions on a grid: thread 0 is left at its k1-th boundary, thread 1 at its k2-th, then thread 0
 # runs to its end before thread 1 resumes (and the mirror image)
 GRID_PAIRS = [("blk_a", "col_b"), ("badcolor", "col_b"), ("col_a", "col_b"), ("graded_s9", "graded_s92"),
@@ -55,6 +55,16 @@ SHARED = {
     "shr_c": dict(_SH, kind="table", df=c14.tagged(7, 3), body={}, page={"nrow": 12, "page_footnote": "all",
                                                                        "page_source": "all"}),
 }
+# two group_by documents with the SAME column names, one of them with one row per page (every page start needs its
+# group value restored)
+def _grp(n, labels, nrow):
+    return {"kind": "table", "page": {"nrow": nrow}, "title": None, "colheader": "none",
+            "df": c14.tagged(n, 2, extra=[{"name": "N2", "dtype": "str", "values": labels}]),
+            "body": {"group_by": ["N2"]}}
+
+
+LOCAL = {"grp_a": _grp(6, ["a"] * 3 + ["b"] * 3, 1), "grp_b": _grp(4, ["x", "x", "y", "y"], 3),
+         "grp_c": _grp(9, ["p"] * 4 + ["q"] * 5, 2)}
 TRIPLES = [("col_a", "col_b", "multi_a"), ("figure", "pageby", "col_b"), ("col_a", "raising", "multi_b")]
 
 
@@ -65,12 +75,12 @@ def exhaustive(tier):
 def plan(tier, seed):
     descs = []
     pairs = (PAIRS[:2] + [("multi3_p", "multi3_l"), ("title_vec", "col_b"), ("const_a", "const_b"),
-                          ("shr_a", "shr_b")]) \
+                          ("shr_a", "shr_b"), ("grp_a", "grp_b")]) \
         if tier == "quick" else PAIRS
     k = 12 if tier == "quick" else 13
     for pi, pair in enumerate(pairs):
         # quick: the first pair at every call boundary, the second at every third one
-        stride = 3 if (tier == "quick" and pi > 0) else 1
+        stride = 3 if (tier == "quick" and pi > 0 and pair[0] not in SHARED and pair[0] not in LOCAL) else 1
         for i in range(k // stride):
             descs.append({"kind": "single", "docs": list(pair), "lo": i * stride, "step": k, "timeout": 1800})
     cold = COLD_PAIRS[:2] if tier == "quick" else COLD_PAIRS
@@ -156,6 +166,8 @@ class Env:
                     1 for a in self.docs for b in self.docs if a < b and a in SHARED and b in SHARED
                     for f in ("rtf_title", "rtf_footnote", "rtf_source", "rtf_subline")
                     if getattr(self.docs[a], f) is getattr(self.docs[b], f) and getattr(self.docs[a], f) is not None)
+            elif n in LOCAL:
+                self.docs[n] = S.build(LOCAL[n], td)
             else:
                 self.docs[n] = S.build(c14.POOL[n], td)
             # solo result, measured under the same monitoring (twice: warm caches first)
